@@ -143,6 +143,10 @@ func (server *Server) pop(conn *redis.Conn, key string, count int, isLPop bool) 
 	} else {
 		elems, ok = list.RPop(count)
 	}
+	if list.Len() == 0 {
+		// A list that becomes empty is removed like Redis.
+		db.RemoveRecord(key)
+	}
 
 	if !ok || len(elems) == 0 {
 		return redis.NewNilMessage(), nil
